@@ -1852,3 +1852,8 @@ fn read_residuals<R: BitRead, I: SignedInteger>(
         _ => Err(Error::InvalidCodingMethod),
     }
 }
+
+// verification hook: inert unless built by `cargo kani` (cfg(kani)); see /verif/DESIGN.md
+#[cfg(kani)]
+#[path = "/verif/harness/decode.rs"]
+mod verif_k;
